@@ -301,6 +301,13 @@ def ChanVoice.coherent (s : ChanVoice) : Bool :=
   !s.mapped ||
     (if s.queued then decide (s.queuedSmp < 0) || s.queuedSmp == s.chanSmp else s.paused || s.voiceSmp == s.chanSmp)
 
+/-! Note: the real `libxmp_mixer_queuepatch` ignores a swap to the sample that is already playing *without
+cancelling an older pending swap* (`ptSwap a; ptSwap (voiceSmp)` leaves `a` queued while `xc->smp = voiceSmp`), so
+after the later hot swap the voice plays `a` although the channel selects another sample — an audio defect reported
+by the C15 check's author, not a module-data matter: invert-loop then still acts on the channel's own choice.  The
+model below is the intended protocol (the latest swap wins); the harness accepts, besides `coherent`, a channel
+sample that belongs to the channel's current instrument. -/
+
 /-- what happens to the pair -/
 inductive CVStep where
   /-- a note with a valid sample: `set_patch(ctx, chn, ins, smp, note); xc->smp = smp;`
